@@ -4,7 +4,6 @@ import json, os
 V = os.path.dirname(os.path.dirname(os.path.abspath(__file__)))
 
 NA = {
- "C17": "canonical numerals, exact parse and the 2^BITS overflow boundary depend on digit-batching arithmetic and ilog values; the one shape-level clause (push_limb overflow flag is consumed) is decided under C16",
  "C20": "floor-sqrt for every x depends on Hast's iteration bound and Newton convergence (numerical)",
 }
 
